@@ -211,6 +211,9 @@ func strCorpus() []StrCase {
 		append([]StrOp{{K: "flag", ID: 1, F: false}, {K: "rm", ID: 1}}, repOp(StrOp{K: "pick"}, 22)...)...)})
 	out = append(out, StrCase{Kind: 2, Ops: append(append([]StrOp{{K: "add", W: 1}, {K: "add", W: 9}, {K: "add", W: 2}}, repOp(StrOp{K: "pick"}, 5)...),
 		append([]StrOp{{K: "flag", ID: 2, F: false}, {K: "pick"}, {K: "rm", ID: 2}}, repOp(StrOp{K: "pick"}, 12)...)...)})
+	// round robin walks past any number of ejected neighbours: six backends, three and four adjacent ones ejected
+	out = append(out, StrCase{Kind: 0, Ops: append(append(repOp(StrOp{K: "add", W: 1}, 6), StrOp{K: "flag", ID: 2, F: false}, StrOp{K: "flag", ID: 3, F: false}, StrOp{K: "flag", ID: 4, F: false}),
+		append(repOp(StrOp{K: "pick"}, 9), append([]StrOp{{K: "flag", ID: 5, F: false}}, repOp(StrOp{K: "pick"}, 6)...)...)...)})
 	// fresh SWRR pool, three periods
 	out = append(out, StrCase{Kind: 2, Ops: append([]StrOp{{K: "add", W: 5}, {K: "add", W: 1}, {K: "add", W: 1}}, repOp(StrOp{K: "pick"}, 21)...)})
 	// known finding wrr-flap-beyond-two-ratio: five backends of weights 8,1,1,1,1; 88 picks, each with its own eligible set
